@@ -35,6 +35,7 @@ _AXIS_POSITION = (
     "(?:center|left|right|inner|outer)"  # TODO use VALID_POSITION_NAMES here instead
 )
 _AXIS_NAME_POSITION_PAIR = f"{_AXIS_NAME}:{_AXIS_POSITION}"
+_AXIS_NAME_POSITION_PAIR_CAPTURED = f"({_AXIS_NAME}):({_AXIS_POSITION})"
 _AXIS_NAME_POSITION_PAIR_LIST = (
     f"(?:{_AXIS_NAME_POSITION_PAIR}(?:,{_AXIS_NAME_POSITION_PAIR})*,?)?"
 )
@@ -206,6 +207,13 @@ class _GridUFuncSignature:
         return canonical(self) == canonical(other)
 
 
+def _names_and_positions(arg: str) -> Tuple[Tuple[str, ...], Tuple[str, ...]]:
+    """Split one argument of a signature into its axis names and positions, pair by pair
+    (a name may itself contain a position word, e.g. ``left_x:center``)."""
+    pairs = re.findall(_AXIS_NAME_POSITION_PAIR_CAPTURED, arg)
+    return tuple(n for n, _ in pairs), tuple(p for _, p in pairs)
+
+
 def _parse_signature_from_string(
     signature: str,
 ) -> Tuple[T_AX_POS_LIST, T_AX_POS_LIST, T_AX_POS_LIST, T_AX_POS_LIST]:
@@ -223,23 +231,13 @@ def _parse_signature_from_string(
 
     in_txt, out_txt = signature.split("->")
 
-    in_ax_names = []
-    for arg in re.findall(_ARGUMENT, in_txt):
-        # Delete the axis positions so they aren't matched as axis names
-        only_names = re.sub(_AXIS_POSITION, "", arg)
-        in_ax_names.append(tuple(re.findall(_AXIS_NAME, only_names)))
+    in_parsed = [_names_and_positions(arg) for arg in re.findall(_ARGUMENT, in_txt)]
+    out_parsed = [_names_and_positions(arg) for arg in re.findall(_ARGUMENT, out_txt)]
 
-    out_ax_names = []
-    for arg in re.findall(_ARGUMENT, out_txt):
-        only_names = re.sub(_AXIS_POSITION, "", arg)
-        out_ax_names.append(tuple(re.findall(_AXIS_NAME, only_names)))
-
-    in_ax_pos = [
-        tuple(re.findall(_AXIS_POSITION, arg)) for arg in re.findall(_ARGUMENT, in_txt)
-    ]
-    out_ax_pos = [
-        tuple(re.findall(_AXIS_POSITION, arg)) for arg in re.findall(_ARGUMENT, out_txt)
-    ]
+    in_ax_names = [names for names, _ in in_parsed]
+    out_ax_names = [names for names, _ in out_parsed]
+    in_ax_pos = [positions for _, positions in in_parsed]
+    out_ax_pos = [positions for _, positions in out_parsed]
 
     return in_ax_names, in_ax_pos, out_ax_names, out_ax_pos
 
@@ -270,15 +268,9 @@ def _parse_signature_from_type_hints(
             if hasattr(hint, "__metadata__")
         ]
 
-        out_ax_names = []
-        for arg in return_annotations:
-            # Delete the axis positions so they aren't matched as axis names
-            only_names = re.sub(_AXIS_POSITION, "", arg)
-            out_ax_names.append(tuple(re.findall(_AXIS_NAME, only_names)))
-
-        out_ax_pos = [
-            tuple(re.findall(_AXIS_POSITION, arg)) for arg in return_annotations
-        ]
+        out_parsed = [_names_and_positions(arg) for arg in return_annotations]
+        out_ax_names = [names for names, _ in out_parsed]
+        out_ax_pos = [positions for _, positions in out_parsed]
 
     # Now do input args
     arg_annotations = [
@@ -287,13 +279,9 @@ def _parse_signature_from_type_hints(
 
     # TODO check number of annotations?
 
-    in_ax_names = []
-    for arg in arg_annotations:
-        # Delete the axis positions so they aren't matched as axis names
-        only_names = re.sub(_AXIS_POSITION, "", arg)
-        in_ax_names.append(tuple(re.findall(_AXIS_NAME, only_names)))
-
-    in_ax_pos = [tuple(re.findall(_AXIS_POSITION, arg)) for arg in arg_annotations]
+    in_parsed = [_names_and_positions(arg) for arg in arg_annotations]
+    in_ax_names = [names for names, _ in in_parsed]
+    in_ax_pos = [positions for _, positions in in_parsed]
 
     # Do a sanity check before going any further
     str_signature = str(
